@@ -295,8 +295,10 @@ def structural_type(t):
         return frozenset(["str"])
     if k == "comp":
         return frozenset([{"list": "list", "set": "set", "dict": "dict", "gen": "generator"}[t[1]]])
-    if k == "closure":
+    if k == "closure" or k == "partial":
         return frozenset(["function"])
+    if k == "nt":
+        return frozenset(["obj:" + t[1]])
     if k == "call":
         r = RET_TYPES.get(t[1])
         if r:
@@ -398,6 +400,9 @@ class Walker:
             st.env[a.kwarg.arg] = P("**" + a.kwarg.arg)
         if self.fi.parent is not None:
             st.env["$closure"] = C(True)
+            # free variables are implicit parameters, bound by the call (see calls.apply_repo)
+            for nm in self.fi.free_vars():
+                st.env[nm] = fa[nm] if fa and nm in fa else P(nm)
         outs = self.block(self.fi.node.body, st)
         res = []
         for s, k, p in outs:
@@ -447,7 +452,140 @@ class Walker:
                 else:
                     outs.extend(self.yield_hook(s, p))
             return outs
+        if isinstance(n.value, ast.YieldFrom) and getattr(self, "yield_hook", None) is not None:
+            outs = []
+            for s, k, p in self.expr(n.value.value, st):
+                if k != "val":
+                    outs.append((s, k, p))
+                elif isinstance(p, tuple) and len(p) == 3 and p[0] == "gen":
+                    # delegate to the inner generator: each of its values is yielded by this one
+                    for s2, k2, p2 in self._run_generator(p, s, lambda s_c, v: self.yield_hook(s_c, v), n):
+                        outs.append((s2, "fall", None) if k2 == "exhausted" else (s2, k2, p2))
+                else:
+                    # yield from <iterable>  ==  for v in <iterable>: yield v
+                    s = s.copy()
+                    s.env["$yf_it"] = p
+                    loop = ast.For(target=ast.Name(id="$yf", ctx=ast.Store()), iter=ast.Name(id="$yf_it", ctx=ast.Load()), body=[ast.Expr(value=ast.Yield(value=ast.Name(id="$yf", ctx=ast.Load())))], orelse=[])
+                    for x in ast.walk(loop):
+                        ast.copy_location(x, n)
+                    for s2, k2, p2 in self.s_For(loop, s):
+                        s2.env.pop("$yf_it", None)
+                        s2.env.pop("$yf", None)
+                        outs.append((s2, k2, p2))
+            return outs
         return [(s, "fall", None) if k == "val" else (s, k, p) for s, k, p in self.expr(n.value, st)]
+
+    # ---- generators
+    def _run_generator(self, gen, s, on_yield, node, assigned=()):
+        """walk the body of generator `gen` = ("gen", qualname, bindings) in place; every value it
+        yields is handed to on_yield(state in the consumer's scope, value) -> outcomes of the
+        consumer's code for that value (fall / continue: the generator resumes; break / raise /
+        return: the generator is abandoned).  -> [(state in the consumer's scope, kind, payload)]
+        with kind in exhausted | break | raise | return"""
+        fi = self.prog.funcs.get(gen[1])
+        if fi is None:
+            raise AnalysisError("generator %s is not a function of the repository" % gen[1])
+        depth = getattr(self, "_gen_depth", 0)
+        if depth > 6:
+            raise AnalysisError("generators nested too deeply at %s" % self.site(node))
+        w2 = Walker(self.eng, fi, None, self.inline)
+        w2._gen_depth = depth + 1
+        st = s.copy()
+        caller_env = st.env
+        st.env = dict(gen[2])
+        st.env["$caller_env"] = caller_env
+        if fi.parent is not None:
+            st.env["$closure"] = C(True)
+        st.ev("gen-enter", self.site(node), gen[1])
+
+        def hook(s_y, yielded):
+            gen_env = s_y.env
+            s_c = s_y.copy()
+            s_c.env = dict(gen_env.get("$caller_env", caller_env))
+            res = []
+            for s1, k1, p1 in on_yield(s_c, yielded):
+                s1 = s1.copy()
+                s1.env = dict(gen_env, **{"$caller_env": s1.env})
+                if k1 in ("fall", "continue"):
+                    res.append((s1, "fall", None))
+                else:
+                    res.append((s1, "body-" + k1, p1))
+            return res
+
+        w2.yield_hook = hook
+        outs = []
+        for s3, k3, p3 in w2.block(fi.node.body, st):
+            s3 = s3.copy()
+            s3.env = dict(s3.env.get("$caller_env", caller_env))
+            if k3 in ("fall", "return"):
+                if fi.yields_in_loops:
+                    # values of the names the consumer assigns per element are those of an unknown
+                    # number of iterations
+                    for nm in assigned:
+                        if nm in s3.env or nm in caller_env:
+                            s3.env[nm] = Fresh("aftergen_" + nm)
+                outs.append((s3, "exhausted", None))
+            elif k3.startswith("body-"):
+                outs.append((s3, k3[5:], p3))
+            else:
+                outs.append((s3, k3, p3))
+        return outs
+
+    def _iterate_generator(self, gen, s, node, target, body, orelse):
+        assigned = self._assigned_names(body) | set(_names_of_target(target))
+
+        def on_yield(s_c, value):
+            res = []
+            for s0, k0, p0 in self._assign_target(target, value, s_c, node):
+                if k0 != "fall":
+                    res.append((s0, k0, p0))
+                else:
+                    res.extend(self.block(body, s0))
+            return res
+
+        outs = []
+        for s2, k2, p2 in self._run_generator(gen, s, on_yield, node, assigned):
+            if k2 == "exhausted":
+                outs.extend(self.block(orelse, s2) if orelse else [(s2, "fall", None)])
+            elif k2 == "break":
+                outs.append((s2, "fall", None))
+            else:
+                outs.append((s2, k2, p2))
+        return outs
+
+    def _collect_generator(self, gen, s, node, kind):
+        """list(gen) / tuple(gen) / set(gen) / dict(gen) / sorted(gen): an accumulator filled by a
+        loop over the generator -> [(state, 'val', accumulator term) | other outcomes]"""
+        acc = "$acc_%d_%d" % (getattr(node, "lineno", 0), getattr(node, "col_offset", 0))
+        s = s.copy()
+        init = {"dict": ast.Dict(keys=[], values=[]), "list": ast.List(elts=[], ctx=ast.Load()), "set": ast.Call(func=ast.Name(id="set", ctx=ast.Load()), args=[], keywords=[])}[kind]
+        ast.copy_location(init, node)
+        ast.fix_missing_locations(init)
+        outs = []
+        for s0, k0, t0 in self.expr(init, s):
+            if k0 != "val":
+                outs.append((s0, k0, t0))
+                continue
+            s0 = s0.copy()
+            s0.env[acc] = t0
+            if kind == "dict":
+                target = ast.Tuple(elts=[ast.Name(id="$k", ctx=ast.Store()), ast.Name(id="$v", ctx=ast.Store())], ctx=ast.Store())
+                store = ast.Assign(targets=[ast.Subscript(value=ast.Name(id=acc, ctx=ast.Load()), slice=ast.Name(id="$k", ctx=ast.Load()), ctx=ast.Store())], value=ast.Name(id="$v", ctx=ast.Load()))
+            else:
+                target = ast.Name(id="$v", ctx=ast.Store())
+                store = ast.Expr(value=ast.Call(func=ast.Attribute(value=ast.Name(id=acc, ctx=ast.Load()), attr="append" if kind == "list" else "add", ctx=ast.Load()), args=[ast.Name(id="$v", ctx=ast.Load())], keywords=[]))
+            for x in list(ast.walk(target)) + list(ast.walk(store)):
+                ast.copy_location(x, node)
+            ast.fix_missing_locations(store)
+            for s2, k2, p2 in self._iterate_generator(gen, s0, node, target, [store], []):
+                if k2 == "fall":
+                    val = s2.env.get(acc, t0)
+                    for nm in (acc, "$k", "$v"):
+                        s2.env.pop(nm, None)
+                    outs.append((s2, "val", val))
+                else:
+                    outs.append((s2, k2, p2))
+        return outs
 
     def s_Pass(self, n, st):
         return [(st, "fall", None)]
@@ -469,8 +607,17 @@ class Walker:
 
     def s_FunctionDef(self, n, st):
         st = st.copy()
-        st.env[n.name] = ("closure", self.fi.qualname + "." + n.name)
+        st.env[n.name] = self._closure_value(self.fi.qualname + "." + n.name, st)
         return [(st, "fall", None)]
+
+    def _closure_value(self, qualname, st):
+        """closure term with a snapshot of the free variables that are bound right now (used when
+        the closure is called outside the frame that created it)"""
+        fi = self.prog.funcs.get(qualname)
+        caps = ()
+        if fi is not None:
+            caps = tuple((nm, st.env[nm]) for nm in fi.free_vars() if nm in st.env and not nm.startswith("$"))
+        return ("closure", qualname, caps)
 
     def s_Global(self, n, st):
         st = st.copy()
@@ -502,6 +649,8 @@ class Walker:
                         nxt.append((s2, k2, p2))
                         continue
                     if is_lit(val) and val[1] in ("tuple", "list") and len(val[2]) == len(t.elts):
+                        item = val[2][i]
+                    elif isinstance(val, tuple) and len(val) == 3 and val[0] == "nt" and len(val[2]) == len(t.elts):
                         item = val[2][i]
                     else:
                         item = Sub(val, C(i))
@@ -902,6 +1051,9 @@ class Walker:
             if k != "val":
                 outs.append((s, k, it))
                 continue
+            if isinstance(it, tuple) and len(it) == 3 and it[0] == "gen":
+                outs.extend(self._iterate_generator(it, s, n, n.target, n.body, n.orelse))
+                continue
             items = self.literal_items(it, s)
             if items is not None:
                 outs.extend(self._unrolled(n, s, items))
@@ -922,6 +1074,14 @@ class Walker:
                     return False
             return True
 
+        if isinstance(it, tuple) and len(it) == 2 and it[0] == "global" and it[1].startswith("const:"):
+            # a module-level table: a tuple display bound once (tuples cannot be modified in place)
+            lit = self.eng.const_literal(it[1][6:])
+            if lit is not None and is_lit(lit, "tuple") and len(lit[2]) <= self.UNROLL_MAX:
+                return list(lit[2])
+            return None
+        if isinstance(it, tuple) and len(it) == 3 and it[0] == "nt":
+            return list(it[2])
         if is_lit(it) and it[1] in ("list", "tuple", "set") and len(it[2]) <= self.UNROLL_MAX and untouched(it):
             if it[1] == "set" and len(it[2]) > 1:
                 return None  # iteration order of a set display is not the source order
@@ -1364,6 +1524,22 @@ class Walker:
                 r = self.prog.resolve_name(self.prog.by_short[b[1][7:]], e.attr)
                 outs.append((s, "val", self.resolution_term(r, [], e)))
                 continue
+            nt = b
+            if b[0] == "global" and b[1].startswith("const:"):
+                lit = self.eng.const_literal(b[1][6:])
+                if lit is not None and lit[0] == "nt":
+                    nt = lit
+            if nt[0] == "nt" and len(nt) == 3:
+                ci = self.prog.classes.get(nt[1])
+                names = [n for n, _d in ci.nt_fields()] if ci is not None else []
+                if e.attr in names:
+                    outs.append((s, "val", nt[2][names.index(e.attr)]))
+                    continue
+                if ci is not None and self.prog.find_method(nt[1], e.attr) is not None:
+                    outs.append((s, "val", ("attr", nt, e.attr)))
+                    continue
+                self.rz(outs, s, e, "AttributeError", "attribute %s on a %s" % (e.attr, nt[1]), [])
+                continue
             ts = s.types(b)
             if ts is not None and all(x in _ATTRS for x in ts):
                 if not _has_attr(ts, e.attr):
@@ -1616,7 +1792,21 @@ class Walker:
         return self.e_Yield(e, st)
 
     def e_Lambda(self, e, st):
-        return [(st, "val", Fresh("lambda"))]
+        """a lambda is a nested function whose body is `return <expr>`"""
+        from .model import FuncInfo
+
+        parent = self.fi if isinstance(self.fi, FuncInfo) else None
+        q = "%s.<lambda:%d:%d>" % (self.fi.qualname, e.lineno, e.col_offset)
+        if q not in self.prog.funcs:
+            ret = ast.Return(value=e.body)
+            node = ast.FunctionDef(name="<lambda>", args=e.args, body=[ret], decorator_list=[], returns=None, type_comment=None)
+            for x in (ret, node):
+                ast.copy_location(x, e)
+            node.end_lineno = getattr(e, "end_lineno", e.lineno)
+            fi = FuncInfo(q, self.mod, node, cls=None, parent=parent)
+            fi.is_lambda = True
+            self.prog.funcs[q] = fi
+        return [(st, "val", self._closure_value(q, st))]
 
     def e_Starred(self, e, st):
         return self.expr(e.value, st)
@@ -1658,6 +1848,9 @@ class Walker:
             if is_lit(b) and b[1] in ("list", "tuple") and is_const(k) and isinstance(k[2], int) and -len(b[2]) <= k[2] < len(b[2]):
                 outs.append((s, "val", b[2][k[2]]))
                 continue
+            if isinstance(b, tuple) and len(b) == 3 and b[0] == "nt" and is_const(k) and isinstance(k[2], int) and -len(b[2]) <= k[2] < len(b[2]):
+                outs.append((s, "val", b[2][k[2]]))
+                continue
             if s.holds(("ok", t)):
                 outs.append((s, "val", t))
                 continue
@@ -1692,6 +1885,9 @@ class Walker:
         for s, k, it in self.expr(g.iter, st):
             if k != "val":
                 outs.append((s, k, it))
+                continue
+            if isinstance(it, tuple) and len(it) == 3 and it[0] == "gen":
+                outs.extend(self._comp_over_generator(e, kind, g, s, it))
                 continue
             items = self.literal_items(it, s)
             if items is not None and not (kind == "gen" and False):
@@ -1762,6 +1958,42 @@ class Walker:
                 if keepf:
                     s2.add(("forall", base, loop_id, keepf))
             outs.append((s2, "val", ("comp", kind, it, elt_term if elt_term is not None else Fresh("elt"), loop_id)))
+        return outs
+
+    def _comp_over_generator(self, e, kind, g, s, gen):
+        """{k: v for t in GEN if c} etc.: an accumulator filled by a loop over the generator"""
+        acc = "$acc_%d_%d" % (e.lineno, e.col_offset)
+        k2 = "list" if kind == "gen" else kind
+        init = {"dict": ast.Dict(keys=[], values=[]), "list": ast.List(elts=[], ctx=ast.Load()), "set": ast.Call(func=ast.Name(id="set", ctx=ast.Load()), args=[], keywords=[])}[k2]
+        ast.copy_location(init, e)
+        ast.fix_missing_locations(init)
+        if k2 == "dict":
+            store = ast.Assign(targets=[ast.Subscript(value=ast.Name(id=acc, ctx=ast.Load()), slice=e.key, ctx=ast.Store())], value=e.value)
+        else:
+            store = ast.Expr(value=ast.Call(func=ast.Attribute(value=ast.Name(id=acc, ctx=ast.Load()), attr="append" if k2 == "list" else "add", ctx=ast.Load()), args=[e.elt], keywords=[]))
+        body = store
+        for cnd in reversed(g.ifs):
+            body = ast.If(test=cnd, body=[body], orelse=[])
+        for x in ast.walk(body):
+            if not hasattr(x, "lineno"):
+                ast.copy_location(x, e)
+        ast.fix_missing_locations(body)
+        outs = []
+        for s0, k0, t0 in self.expr(init, s.copy()):
+            if k0 != "val":
+                outs.append((s0, k0, t0))
+                continue
+            s0 = s0.copy()
+            s0.env[acc] = t0
+            for s2, kk, p2 in self._iterate_generator(gen, s0, e, g.target, [body], []):
+                if kk == "fall":
+                    val = s2.env.get(acc, t0)
+                    s2.env.pop(acc, None)
+                    for nm in _names_of_target(g.target):
+                        s2.env.pop(nm, None)
+                    outs.append((s2, "val", val))
+                else:
+                    outs.append((s2, kk, p2))
         return outs
 
     def _unrolled_comp(self, e, kind, g, s, items):
